@@ -384,7 +384,7 @@ fn malformed_tail(d: &mut Decider, n: usize) -> Vec<String> {
             }
         }
     };
-    match d.choose("mk", 14) {
+    match d.choose("mk", 16) {
         0 => {
             let l = wrong_len(d);
             vec![s("-a"), "0".repeat(l)]
@@ -404,6 +404,8 @@ fn malformed_tail(d: &mut Decider, n: usize) -> Vec<String> {
         10 => vec![s("-p"), s("x")],
         11 => vec![s("--frobnicate")],
         12 => vec![s("--shots"), s("1"), s("-a"), s("0")],
+        13 => vec![s("-a"), format!("{} ", "0".repeat(n))],
+        14 => vec![s("-e"), format!(" {}", "Z".repeat(n))],
         _ => vec![s("--shots"), s("1.5")],
     }
 }
@@ -518,7 +520,15 @@ impl Property for C06 {
             "malformed" | "child" | "faults" | "stats" => "clifford_t",
             s => s,
         };
-        let circ = self.circuit_for(d, tier, family);
+        let mut circ = self.circuit_for(d, tier, family);
+        // equivalent spellings of the same program in a third of the runs
+        if d.coin("style", 1, 3) {
+            circ.style = d.draw64("style.seed") | 1;
+            if circ.n >= 2 && d.coin("regs", 1, 2) {
+                let cut = 1 + d.choose("cut", circ.n - 1);
+                circ.regs = vec![cut, circ.n - cut];
+            }
+        }
         let n = circ.n;
         let method = *d.pick("method", &[Method::Default, Method::Cats, Method::Bss]);
         let parallel = if d.coin("par", 1, 2) { Some(d.choose("pd", 4)) } else { None };
@@ -789,7 +799,9 @@ impl Property for C06 {
                             let mut off = header.len();
                             let mut kk = 0;
                             for st in &stmts {
-                                if off + st.trim_end().len() <= cut {
+                                // a statement is complete once its ';' is inside the cut
+                                // (blanks or a comment may follow it)
+                                if off + st.find(';').map(|i| i + 1).unwrap_or(st.len()) <= cut {
                                     kk += 1;
                                     off += st.len();
                                 } else {
